@@ -609,6 +609,18 @@ struct Exec {
             std::vector<double> buf(8, 0);
             if (t == NC_CHAR) ncmpi_get_vara_text_all(ncid, i, st.data(), ct.data(), (char *)buf.data()); else ncmpi_get_vara_double_all(ncid, i, st.data(), ct.data(), buf.data());
         }
+        {   // no two variables may share file space (fixed: [begin, begin+size), record: [begin, begin+size of one record) inside the record)
+            struct Ext { long long lo, hi; bool rec; std::string nm; }; std::vector<Ext> ex;
+            for (int i = 0; i < nv && nv <= 2000; i++) {
+                char nm[NC_MAX_NAME + 1]; nc_type t; int vnd = 0; if (ncmpi_inq_varndims(ncid, i, &vnd) != NC_NOERR || vnd < 0 || vnd > 1024) continue; std::vector<int> dimids(vnd + 1);
+                if (ncmpi_inq_var(ncid, i, nm, &t, &vnd, dimids.data(), nullptr) != NC_NOERR || t < NC_BYTE || t > NC_UINT64) continue;
+                MPI_Offset off = -1; if (ncmpi_inq_varoffset(ncid, i, &off) != NC_NOERR || off < 0) continue;
+                long double sz = nc_type_size(t); bool rec = vnd > 0 && dimids[0] == ul; bool okd = true; for (int d = rec ? 1 : 0; d < vnd; d++) { if (dimids[d] < 0 || dimids[d] >= nd) { okd = false; break; } sz *= (long double)dimlen[dimids[d]]; }
+                if (!okd || sz <= 0 || sz > 9e18L) continue;
+                ex.push_back({(long long)off, (long long)off + (long long)sz, rec, nm});
+            }
+            for (size_t a = 0; a < ex.size(); a++) for (size_t b2 = a + 1; b2 < ex.size(); b2++) if (ex[a].rec == ex[b2].rec && ex[a].lo < ex[b2].hi && ex[b2].lo < ex[a].hi) { bad("variables '" + ex[a].nm + "' [" + std::to_string(ex[a].lo) + "," + std::to_string(ex[a].hi) + ") and '" + ex[b2].nm + "' [" + std::to_string(ex[b2].lo) + "," + std::to_string(ex[b2].hi) + ") share file space"); a = ex.size(); break; }
+        }
         ncmpi_close(ncid);
         sim::set_in_lib(false);
     }
